@@ -1,0 +1,12 @@
+//go:build verif
+
+// Contracts for the deductive checks under /verif (comment-only; no code).
+
+package dshelp
+
+// the datastore key of a multihash: a function of the multihash alone
+//@ spec mhKey(h mh.Multihash) datastore.Key
+//@ func MultihashToDsKey
+//@   assumed
+//@   pure
+//@   ensures result == mhKey(k)
